@@ -5,6 +5,7 @@ package sm3_test
 // GB/T 32905, anchored to the standard's vectors) over the model.
 
 import (
+	"strconv"
 	"bytes"
 	"encoding/json"
 	"fmt"
@@ -247,7 +248,7 @@ func TestVerif_C04_LongMessage(t *testing.T) {
 // the bit length no longer fits in 32 bits.
 func TestVerif_C04_LongZeroVectors(t *testing.T) {
 	rec := stats.Get("C04", "long-zero-vectors")
-	rec.Rule("static third-party vectors (vectors/sm3_openssl_long_zero.json, openssl dgst -sm3 over N zero bytes, N = 2^29-1, 2^29, 2^29+65, 2^30+3): the zero bytes come from a read-only anonymous mapping and are written in 1 MiB..64 MiB chunks with a Sum at the half-way point; quick runs the two lengths around 2^29, thorough all four. Each case non-trivial (bit length at or above 2^32); distinct by length.")
+	rec.Rule("static third-party vectors (vectors/sm3_openssl_long_zero.json, openssl dgst -sm3 over N zero bytes, N = 2^29-1, 2^29, 2^29+65, 2^30+3, 2^32-1, 2^32, 2^32+197): the zero bytes come from a read-only anonymous mapping and are written in 1 MiB..64 MiB chunks with a Sum at the half-way point; quick runs the two lengths around 2^29, thorough all seven. Each case non-trivial (bit length at or above 2^32); distinct by length.")
 	rec.Exhaustive(true)
 	t.Cleanup(stats.FlushAll)
 	b, err := os.ReadFile(filepath.Join(os.Getenv("VERIF_DIR"), "vectors", "sm3_openssl_long_zero.json"))
@@ -257,7 +258,7 @@ func TestVerif_C04_LongZeroVectors(t *testing.T) {
 	}
 	var f struct {
 		Vectors []struct {
-			ZeroBytes int    `json:"zero_bytes"`
+			ZeroBytes int64  `json:"zero_bytes"`
 			Digest    string `json:"digest"`
 		}
 	}
@@ -274,8 +275,11 @@ func TestVerif_C04_LongZeroVectors(t *testing.T) {
 		if !vt.Thorough() && i != 1 && i != 2 {
 			continue
 		}
+		if v.ZeroBytes > int64(^uint(0)>>1) {
+			continue
+		}
 		h := sm3.New()
-		left := v.ZeroBytes
+		left := int(v.ZeroBytes)
 		chunk := []int{1 << 20, 64 << 20, 3<<20 + 17}[i%3]
 		for left > 0 {
 			n := chunk
@@ -286,7 +290,7 @@ func TestVerif_C04_LongZeroVectors(t *testing.T) {
 				vt.Fail(t, rec, "C04:write:return", "Write(%d) returned (%d,%v)", n, wn, werr)
 			}
 			left -= n
-			if left > 0 && left <= v.ZeroBytes/2 && left+n > v.ZeroBytes/2 {
+			if left > 0 && left <= int(v.ZeroBytes/2) && left+n > int(v.ZeroBytes/2) {
 				h.Sum(nil)
 			}
 		}
@@ -296,4 +300,82 @@ func TestVerif_C04_LongZeroVectors(t *testing.T) {
 		}
 	}
 	rec.Sample("long-zero", map[string]interface{}{"lengths": "2^29-1, 2^29, 2^29+65, 2^30+3 zero bytes", "source": "openssl dgst -sm3"})
+}
+
+// Slices whose LENGTH leaves 32 bits: one Write / one SumSM3 over 2^32-1, 2^32 and 2^32+197 zero bytes (a read-only anonymous mapping:
+// no memory is committed). Thorough tier (about 10 s of hashing per call); 64-bit platforms only.
+func TestVerif_C04_HugeSliceVectors(t *testing.T) {
+	rec := stats.Get("C04", "huge-slice-vectors")
+	rec.Rule("static third-party vectors (openssl dgst -sm3 over N zero bytes, N = 2^32-1, 2^32, 2^32+197): the whole message is handed over as ONE slice — a single Write followed by Sum, SumSM3, and a Write of 2^32+ bytes after a 3-byte-short prefix was written first (buffered-prefix path) — from a read-only anonymous mapping. Thorough only. Each case non-trivial (slice length >= 2^32-1); distinct by (length, call shape).")
+	rec.Exhaustive(true)
+	t.Cleanup(stats.FlushAll)
+	if !vt.Thorough() {
+		rec.Skipped("slices of 2^32 bytes are hashed in the thorough tier only (about 10 s per call)")
+		return
+	}
+	if strconv.IntSize < 64 {
+		rec.Skipped("32-bit platform: no slice of 2^32 bytes exists")
+		return
+	}
+	b, err := os.ReadFile(filepath.Join(os.Getenv("VERIF_DIR"), "vectors", "sm3_openssl_long_zero.json"))
+	if err != nil {
+		rec.Skipped("vectors/sm3_openssl_long_zero.json not readable: " + err.Error())
+		return
+	}
+	var f struct {
+		Vectors []struct {
+			ZeroBytes int64  `json:"zero_bytes"`
+			Digest    string `json:"digest"`
+		}
+	}
+	if err := json.Unmarshal(b, &f); err != nil {
+		t.Fatal(err)
+	}
+	var huge []int
+	for i, v := range f.Vectors {
+		if v.ZeroBytes >= 1<<32-1 {
+			huge = append(huge, i)
+		}
+	}
+	si, sn := vt.Shard()
+	max := int64(1<<32 + 4096)
+	mem, err := syscall.Mmap(-1, 0, int(max), syscall.PROT_READ, syscall.MAP_ANON|syscall.MAP_PRIVATE|syscall.MAP_NORESERVE)
+	if err != nil {
+		rec.Skipped("cannot map 4 GiB of zero pages: " + err.Error())
+		return
+	}
+	defer syscall.Munmap(mem)
+	job := 0
+	for _, i := range huge {
+		v := f.Vectors[i]
+		n := int(v.ZeroBytes)
+		for _, shape := range []string{"write+sum", "sumsm3", "prefix61+write"} {
+			job++
+			if job%sn != si {
+				continue
+			}
+			var got string
+			switch shape {
+			case "write+sum":
+				h := sm3.New()
+				if wn, werr := h.Write(mem[:n]); wn != n || werr != nil {
+					vt.Fail(t, rec, "C04:write:return", "Write(%d) returned (%d,%v)", n, wn, werr)
+				}
+				got = fmt.Sprintf("%x", h.Sum(nil))
+			case "sumsm3":
+				d := sm3.SumSM3(mem[:n])
+				got = fmt.Sprintf("%x", d[:])
+			default:
+				h := sm3.New()
+				h.Write(mem[:61])
+				h.Write(mem[:n-61])
+				got = fmt.Sprintf("%x", h.Sum(nil))
+			}
+			rec.Enumerated(1, "huge-slice:"+shape)
+			if got != v.Digest {
+				vt.Fail(t, rec, "C04:huge-slice:"+shape, "digest of %d zero bytes handed over as one slice (%s) differs from OpenSSL\n got %s\nwant %s", v.ZeroBytes, shape, got, v.Digest)
+			}
+		}
+	}
+	rec.Sample("huge-slice", map[string]interface{}{"lengths": "2^32-1, 2^32, 2^32+197 zero bytes in one slice", "shapes": "Write+Sum, SumSM3, 61-byte prefix then the rest", "source": "openssl dgst -sm3"})
 }
